@@ -13,10 +13,13 @@ import (
 	"seehuhn.de/go/sfnt/glyph"
 )
 
-// NumGlyphs is the size of every constructed font; shapes use the glyphs 1..MaxUsed.
+// NumGlyphs is the size of the constructed fonts; shapes use the glyphs 1..MaxUsed.  The large
+// fonts "L" (names) and "Lx" (no names) have LargeGlyphs glyphs: room for glyph id differences
+// of -1, -255, -256 and their wrap-around modulo 65536.
 const (
-	NumGlyphs = 48
-	MaxUsed   = 44
+	NumGlyphs   = 48
+	MaxUsed     = 44
+	LargeGlyphs = 600
 )
 
 // Font is a constructed font together with the harness' own view of its names and
@@ -38,8 +41,10 @@ func NameOf(i int) string {
 		return string(rune('A' + i - 1))
 	case i <= 40:
 		return string(rune('a' + i - 27))
-	default:
+	case i <= 47:
 		return []string{"zero", "one", "two", "three", "four.alt", "five_x", "six", "seven"}[i-41]
+	default:
+		return fmt.Sprintf("g%d", i)
 	}
 }
 
@@ -74,8 +79,14 @@ var FontIDs = []string{"nc", "c", "np", "cp", "n", "x", "e"}
 func MakeFont(id string) *Font {
 	names, full, partial, exo, nocmap := false, false, false, false, false
 	switch id {
-	case "0": // names, no cmap table at all (diagnostic only)
+	case "0": // names, no cmap table at all: Parse refuses every text (early return)
 		names, nocmap = true, true
+	case "00": // names, a cmap table without any subtable Parse can use
+		names, nocmap = true, true
+	case "L":
+		names, partial = true, true
+	case "Lx":
+		partial = true
 	case "nc":
 		names, full = true, true
 	case "c":
@@ -92,17 +103,21 @@ func MakeFont(id string) *Font {
 	default:
 		panic("unknown font " + id)
 	}
-	o := &glyf.Outlines{Glyphs: make(glyf.Glyphs, NumGlyphs)}
-	res := &Font{ID: id, Names: make([]string, NumGlyphs), Rune: make([]rune, NumGlyphs), ByRn: map[rune]uint16{}}
+	ng := NumGlyphs
+	if id == "L" || id == "Lx" {
+		ng = LargeGlyphs
+	}
+	o := &glyf.Outlines{Glyphs: make(glyf.Glyphs, ng)}
+	res := &Font{ID: id, Names: make([]string, ng), Rune: make([]rune, ng), ByRn: map[rune]uint16{}}
 	if names {
-		o.Names = make([]string, NumGlyphs)
+		o.Names = make([]string, ng)
 		for i := range o.Names {
 			o.Names[i] = NameOf(i)
 			res.Names[i] = o.Names[i]
 		}
 	}
 	m := cmap.Format4{}
-	for i := 1; i < NumGlyphs; i++ {
+	for i := 1; i < ng && i < NumGlyphs; i++ {
 		var r rune
 		switch {
 		case full:
@@ -127,6 +142,9 @@ func MakeFont(id string) *Font {
 	f := &sfnt.Font{Outlines: o, FamilyName: "C19 " + id}
 	if !nocmap {
 		f.InstallCMap(m)
+	}
+	if id == "00" {
+		f.CMapTable = cmap.Table{{PlatformID: 2, EncodingID: 0}: cmap.Format4{65: 1}.Encode(0)}
 	}
 	res.F = f
 	return res
